@@ -1078,8 +1078,8 @@ def run(ctx):
     allstates += [p for p in pl if p is not None]
     Dd = 4 if ctx.quick else 6
     dleaves = base if ctx.quick else [lf for lf in base if lf[1] in (1, 2, 5) and lf[2] in ('float', 'complex')]
-    sleaves = [lf for lf in narrow if lf[1] in ((2, 5) if ctx.quick else (1, 2, 5)) and (lf[3] or not ctx.quick)]
-    dcases = [(lf, Dd) for lf in dleaves] + [(lf, 4 if ctx.quick else 5, 'same') for lf in sleaves]
+    sleaves = [lf for lf in narrow if lf[1] in ((2, 3, 5) if ctx.quick else (1, 2, 3, 5, 7))]      # same-dtype alphabet: cheap
+    dcases = [(lf, Dd) for lf in dleaves] + [(lf, 5 if ctx.quick else 6, 'same') for lf in sleaves]
     pl = ctx.pmap('deep', deep, dcases, horizon=900, chunk=1, recheck=1)
     allstates += [p for p in pl if p is not None]
     st = np.unique(np.concatenate(allstates)) if allstates else np.array([])
